@@ -8,7 +8,7 @@
     bitstore_helpers.py  tidy_input_string (18), bin2bitstore (37), hex2bitstore (50), oct2bitstore (60),
                          bfloat2bitstore (114), int2bitstore (212), intle2bitstore (233), float2bitstore (238),
                          bitstore_from_token (258)
-    bits.py              _initialise keyword route (135-166), __getattr__ (168-176), _setbits (581), _setbytes (612),
+    bits.py              _initialise keyword route (135-170), __getattr__ (172-180), _setbits (581), _setbytes (612),
                          _setbytes_with_truncation (616), _getbytes (631), _setuint … _getintle (647-741),
                          _setfloat … _setbfloatle (780-817), _setbool/_getbool/_getpad/_setpad (946-963),
                          _setbin_safe/_getbin/_setoct/_getoct/_sethex/_gethex (965-995), _getbits (1139),
@@ -435,18 +435,28 @@ inductive Route where
   | kw | nameLen | prop | propLen | token | build | pack
   deriving DecidableEq, Repr
 
+/-- The tail of `Bits._initialise` (bits.py:163-170): `d = Dtype(k, length); d.set_fn(self, v)` on the object under
+    construction (no bit store yet), then `d.bitlength is not None and len(self) != d.bitlength` → CreationError. -/
+def initWith (d : Dt) (q : Req) : Except Err Bits :=
+  match dtSet d q none with
+  | .error e => .error e
+  | .ok x =>
+    match d.bitlength with
+    | some n => if x.length ≠ n then .error .value else .ok x
+    | none => .ok x
+
 /-- `Cls(**{name: v}, length=len)` — `_initialise` (bits.py:135): `bytes=` is special-cased (length counts bits and
-    truncates; the harness passes `8·len`), everything else is `Dtype(k, length).set_fn(self, v)` with NO check of
-    the resulting length. -/
+    truncates by design; the harness passes `8·len`), everything else is `Dtype(k, length).set_fn(self, v)` followed
+    by the comparison of the resulting length with the dtype's. -/
 def viaKeyword (q : Req) (len : Option Nat) : Except Err Bits :=
   match q with
   | .bytes d => setBytesWithTruncation d (len.map (· * 8))
   | _ =>
     match getDtype q.kind len with
     | .error e => .error e
-    | .ok d => dtSet d q none
+    | .ok d => initWith d q
 
-/-- `Cls(**{name ++ str(len): v})`: `Dtype('uint8')` → the same `set_fn`, again without a length check;
+/-- `Cls(**{name ++ str(len): v})`: `Dtype('uint8')` → the same `set_fn` and the same check;
     `bytes2=` is not the special `bytes` keyword. Without a length this is the plain keyword call. -/
 def viaNameLen (q : Req) (len : Option Nat) : Except Err Bits :=
   match len with
@@ -454,7 +464,7 @@ def viaNameLen (q : Req) (len : Option Nat) : Except Err Bits :=
   | some _ =>
     match getDtype q.kind len with
     | .error e => .error e
-    | .ok d => dtSet d q none
+    | .ok d => initWith d q
 
 /-- `a.<name> = v` on a mutable object that currently holds `cur` bits: the class property calls the definition's
     raw `set_fn(a, v)`. -/
@@ -637,18 +647,6 @@ def applicable (r : Route) (q : Req) (len : Option Nat) : Bool :=
   | .prop, .pad, _ => false
   | .propLen, .pad, none => false
   | _, _, _ => true
-
-/-- The region in which the code ignores a requested length (DESIGN §7, owned by C15): keyword routes,
-    dtypes whose `set_fn` takes its length from the value. -/
-def kw_length_ignored (r : Route) (q : Req) (len : Option Nat) : Bool :=
-  (r = .kw || r = .nameLen) &&
-  (match q with
-   | .str _ _ | .bits _ => true
-   | .bytes _ => r = .nameLen
-   | _ => false) &&
-  (match bitLen q len, naturalLen q with
-   | some n, some m => n ≠ m
-   | _, _ => false)
 
 /-! ## Get functions (ALG) -/
 
